@@ -10,7 +10,8 @@
 (***************************************************************************)
 EXTENDS Integers, Sequences, TLC, Json, CSV, IOUtils
 
-CONSTANTS Depths, ParserDepths, Variants     \* ParserDepths: additional depths for the recursive-descent entry points
+CONSTANTS Depths, ParserDepths, Variants,    \* ParserDepths: additional depths for the recursive-descent entry points
+          CounterDepths                     \* repetition counts for the Counters families
 
 F(fam, name, pre, open, mid, close, post) ==
     [fam |-> fam, name |-> name, pre |-> pre, open |-> open, mid |-> mid, close |-> close, post |-> post]
@@ -56,7 +57,19 @@ Families == {
   F("html", "element", "", "<div>", "x", "</div>", ""), F("html", "svg", "", "<svg>", "x", "</svg>", ""), F("html", "math", "", "<math>", "x", "</math>", ""),
   F("html", "comment", "", "<!--", "x", "-->", ""), F("html", "tmpl", "", "{{", "x", "}}", ""), F("html", "script", "", "<script>", "x", "</script>", "") }
 
+\* ---- repetition rather than nesting: the same unit CounterDepths times in a row (the parser's bookkeeping counts uses,
+\* declarations and list lengths in 16-bit fields: the interesting counts are those around 2^16), closed variant only
+Counters == {
+  F("jscount", "uses-then-arrow", "var a;", "a;", "a=>1", "", ""), F("jscount", "uses", "var a;", "a;", "", "", ""),
+  F("jscount", "undeclared-uses-then-arrow", "", "a;", "a=>1", "", ""), F("jscount", "uses-in-function", "function f(a){", "a;", "", "", "}"),
+  F("jscount", "uses-in-blocks", "let a;", "{a;}", "a=>a", "", ""), F("jscount", "uses-in-args", "var a;f(", "a,", "a", "", ")"),
+  F("jscount", "uses-in-default", "var a;function f(b=[", "a,", "a", "", "]){a}"), F("jscount", "uses-in-for-head", "for(var a;", "a,", "a", "", ";){let a}"),
+  F("jscount", "closures", "var a;", "()=>a;", "a=>a", "", ""), F("jscount", "redeclare", "", "var a;", "a=>a", "", ""),
+  F("jscount", "params", "function f(", "a,", "a", "", "){}"), F("jscount", "array-holes", "x=[", ",", "", "", "]"),
+  F("jscount", "labels", "", "a:", "a=>a", "", "") }
+
 LangsOf(fam) == CASE fam = "js"   -> {"js.parse.0.0", "js.parse.1.1", "js.lex"}
+                  [] fam = "jscount" -> {"js.parse.0.0", "js.parse.1.1"}
                   [] fam = "css"  -> {"css.parse", "css.inline", "css.lex"}
                   [] fam = "json" -> {"json"}
                   [] fam = "xml"  -> {"xml"}
@@ -67,7 +80,8 @@ CaseFile == IOEnv.VERIF_CASES
 Recursive == {"js.parse.0.0", "js.parse.1.1"}
 Cases == {[f |-> f, lang |-> lg, depth |-> d, variant |-> v] : f \in Families, lg \in {"js.parse.0.0", "js.parse.1.1", "js.lex", "css.parse",
           "css.inline", "css.lex", "json", "xml", "html", "html.tmpl.go"}, d \in Depths \cup ParserDepths, v \in Variants}
-Valid(x) == x.lang \in LangsOf(x.f.fam) /\ (x.depth \in Depths \/ x.lang \in Recursive)
+         \cup {[f |-> f, lang |-> lg, depth |-> d, variant |-> "closed"] : f \in Counters, lg \in Recursive, d \in CounterDepths}
+Valid(x) == x.lang \in LangsOf(x.f.fam) /\ (x.f.fam = "jscount" \/ x.depth \in Depths \/ x.lang \in Recursive)
 \* every case is one initial state; it is written out when TLC computes it
 Init == /\ c \in {x \in Cases : Valid(x)}
         /\ CSVWrite("%1$s", <<ToJson([lang |-> c.lang, name |-> c.f.name, pre |-> c.f.pre, open |-> c.f.open, mid |-> c.f.mid,
